@@ -102,6 +102,14 @@ Theorem C08_summary_complete : forall (V : Type) (bs : @blocks V) s t b i v,
             /\ nth_error (s_data s) k = Some v.
 Proof. intros V. exact (@summary_complete V). Qed.
 
+(* generate_elemental_attribute: values stay bound to the ids they were handed
+   in with, each in the block of its element's type; blocks ascending by id *)
+Theorem C08_generate_elemental_attribute : forall (V W : Type) (bs : list (nat * table W)) (tbl : table V) i t v,
+  (In (i, (t, v)) (flatten (egenerate bs tbl)) <->
+   lookup i tbl = Some v /\ exists c, In (i, (t, c)) (flatten bs))
+  /\ Forall (fun b => StronglySorted Z.lt (ids (snd b))) (egenerate bs tbl).
+Proof. intros. split; [apply egenerate_In | apply egenerate_sorted]. Qed.
+
 (* a missing refresh is a violation: one-step witnesses computed by the model *)
 Theorem C08_inv_step_refuted : forall c,
   parent_refreshes_data c && overwrite_uses_setter c && frame_setter_refreshes_id2index c
